@@ -592,7 +592,7 @@ impl Prop for C17 {
                "assumptions": ["ADF and IDF only embed 8x16 fonts: other heights must be refused or are not compared", "embedded fonts are given a non-default name (the XBin writer decides by name whether a font is the default one)"]})
     }
     fn total(&mut self, ctx: &Ctx) -> u64 {
-        43 * BIT_PATHS.len() as u64 + icy_engine::SAUCE_FONT_NAMES.len() as u64 * BIT_PATHS.len() as u64 + ctx.tier.pick(6_000, 300_000)
+        43 * BIT_PATHS.len() as u64 + icy_engine::SAUCE_FONT_NAMES.len() as u64 * BIT_PATHS.len() as u64 + ctx.tier.pick(40_000, 300_000)
     }
     fn run_case(&mut self, ctx: &mut Ctx, k: u64) {
         let case = self.case_for(ctx, k);
